@@ -57,6 +57,11 @@ func CheckTokenGame(pfx string, prog *Program, hist []simlog.Ev) *TokenGameResul
 	var finalVars map[string]any
 	cancelled := false
 	for _, ev := range hist {
+		if len(vl.v) > 0 {
+			// the model has lost track: everything after the first unexplained observation is a cascade
+			res.Viol = vl.v
+			return res
+		}
 		switch ev.Kind {
 		case "startall":
 			m.StartAll()
